@@ -82,6 +82,53 @@ def main():
     texts = []
     dist = collections.Counter()
     total_bytes = 0
+    # the command itself (`penne fuzz tokens --kb K --out-dir D`: whatever src/main.rs does around the fuzzer, before the file is
+    # written): the files it writes, lexed by both lexers.  Small sizes mostly: a token that straddles the requested size is
+    # the last thing written, and what the command does with the end of the buffer shows there.
+    import tempfile
+    import shutil
+    from concurrent.futures import ThreadPoolExecutor
+    penne = build_penne_bin()
+    cli_sizes = [rng.pick([1, 1, 1, 1, 1, 2, 2, 3, 5, 8, 16, 64]) for _ in range(8000 if thorough else 1500)]
+    cli_dir = tempfile.mkdtemp(prefix="c19cli", dir=CACHE)
+
+    def cli_run(job):
+        i, kb = job
+        d = os.path.join(cli_dir, "r%d" % i)
+        os.makedirs(d)          # (the command writes into an existing directory)
+        pr = subprocess.run([penne, "fuzz", "tokens", "--kb", str(kb), "--out-dir", d, "--silent"], stdout=subprocess.PIPE,
+                            stderr=subprocess.PIPE, env=env_for_cargo(), timeout=300)
+        f = os.path.join(d, "fuzzed_tokens.pn")
+        raw = open(f, "rb").read() if os.path.exists(f) else None
+        shutil.rmtree(d, ignore_errors=True)
+        return kb, pr.returncode, raw, (pr.stdout + pr.stderr)[-300:]
+    with ThreadPoolExecutor(max_workers=NCPU) as ex:
+        cli = list(ex.map(cli_run, enumerate(cli_sizes)))
+    shutil.rmtree(cli_dir, ignore_errors=True)
+    cli_texts = []
+    for kb, rc, raw, out in cli:
+        dist["command:%dKB" % kb] += 1
+        if rc != 0 or raw is None:
+            rep.violation("command:failed:%d" % kb, {"what": "`penne fuzz tokens --kb %d --out-dir D` failed or wrote no file (status %s)" % (kb, rc),
+                                                     "output": out.decode("utf-8", "replace")})
+            continue
+        try:
+            text = raw.decode("utf-8")
+        except UnicodeDecodeError:
+            rep.violation("command:utf8:%d" % kb, {"what": "the file the command wrote is not valid UTF-8", "kb": kb, "text_hex": raw.hex()[:4000]})
+            continue
+        if len(raw) < 1024 * kb:
+            rep.violation("command:size:%d:%d" % (kb, len(raw)), {"what": "the file the command wrote is shorter than requested", "kb": kb, "len": len(raw)})
+        cli_texts.append((kb, text))
+    la = run_harness(["lexa\t" + esc(t) for _kb, t in cli_texts])
+    ld = run_harness(["lexd\t" + esc(t.encode()) for _kb, t in cli_texts])
+    for (kb, text), a1, a2 in zip(cli_texts, la, ld):
+        bad = [x for x in (a1.split(" ") + a2.split(" ")) if re.match(r"E\d+@", x)] if not (a1.startswith(("crash", "panic")) or a2.startswith(("crash", "panic"))) else ["crash"]
+        if bad:
+            rep.violation("command:lexerr:%d:%s" % (kb, hash_str(text)), {
+                "what": "a real lexer reports a lexical error on a file written by `penne fuzz tokens --kb %d`" % kb,
+                "errors": bad[:6], "end_of_text": text[-300:], "harness_request": ("lexa\t" + esc(text))[:20000]})
+        total_bytes += len(text)
     for kb, a in zip(sizes, ans):
         d = dict(p.split("=", 1) for p in a.split(" ") if "=" in p)
         if "text" not in d:
